@@ -241,7 +241,20 @@ func (d *Dom[T]) AnyVal(r *core.R) T {
 // variadic argument counts of DESIGN §3.
 var variadicCounts = []int{0, 1, 1, 1, 2, 2, 3, 3, 17}
 
+// bigVariadicCounts: batch sizes around the thresholds at which bulk paths
+// typically switch (64, 256, 1024).
+var bigVariadicCounts = []int{63, 64, 65, 255, 256, 257, 1000, 1024, 1025}
+
 func varCount(r *core.R) int { return variadicCounts[r.Intn(len(variadicCounts))] }
+
+// varCountBig is varCount with an occasional batch of threshold size (used
+// where the monitor's own cost stays linear in the container's size).
+func varCountBig(r *core.R) int {
+	if r.Intn(60) == 0 {
+		return bigVariadicCounts[r.Intn(len(bigVariadicCounts))]
+	}
+	return variadicCounts[r.Intn(len(variadicCounts))]
+}
 
 // hostileIndex draws an index for a container of size n.
 func hostileIndex(r *core.R, n int) int {
